@@ -2,7 +2,7 @@ SPECIFICATION Spec
 CONSTANTS
   Addr = {0, 1}
   Byte = {0, 1}
-  Ids = {i1, i2, i3}
+  Ids = {i1, i2}
   MaxLen = 2
   MaxOut = 2
   Requester = "R"
